@@ -63,19 +63,46 @@ func (o lifeObs) String() string {
 // fsession: TCP or WS peer + client with short timeouts, for fault scenarios.
 type fsession struct {
 	*session
-	base int // connection goroutines before the scenario
+	base    int // connection goroutines before the scenario
+	baseAll int // all library goroutines before the scenario (-1: not measured)
+}
+
+// settleAll waits until the number of goroutines inside the library is stable.
+func settleAll() int {
+	last := -1
+	for i := 0; i < 40; i++ {
+		n, _ := libGoroutines()
+		if n == last {
+			return n
+		}
+		last = n
+		time.Sleep(25 * time.Millisecond)
+	}
+	return last
+}
+
+// nothingLeft: after Close every goroutine of the library that belongs to this client must end (connection
+// goroutines, keepalive, the recovery loop and whoever waits for it).
+func (r *Run) nothingLeft(f *fsession, cs string) {
+	if f.baseAll < 0 {
+		return
+	}
+	if !waitUntil(2500*time.Millisecond, func() bool { n, _ := libGoroutines(); return n <= f.baseAll }) {
+		n, _ := libGoroutines()
+		r.violate(Violation{What: fmt.Sprintf("%d goroutine(s) of the library still running after Close", n-f.baseAll), Case: cs, Extra: libStacks(6000)})
+	}
 }
 
 const fReq, fDial, fAuth = 300 * time.Millisecond, 400 * time.Millisecond, 300 * time.Millisecond
 
 func openF(trans string, opts ...client.DialOption) (*fsession, error) {
-	base := settle()
+	base, baseAll := settle(), settleAll()
 	o := append([]client.DialOption{client.DialTimeout(fDial), client.AuthTimeout(fAuth)}, opts...)
 	s, err := openSession(trans, 1, o...)
 	if err != nil {
 		return nil, err
 	}
-	return &fsession{s, base}, nil
+	return &fsession{s, base, baseAll}, nil
 }
 
 // observe: final observables; peers' connections are probed for closure by the client.
@@ -198,6 +225,7 @@ func (r *Run) afterCloseQuiet(f *fsession, cs string, wait time.Duration) {
 	if n := len(f.tc.closeCallbacks()); n != 1 {
 		r.violate(Violation{What: fmt.Sprintf("the close callback ran %d times (must be exactly once)", n), Case: cs})
 	}
+	r.nothingLeft(f, cs)
 }
 
 // ---------------- C14 ----------------
@@ -248,7 +276,7 @@ func runC14(r *Run) {
 			})
 		}, client.DialTimeout(fDial))
 		if err == nil {
-			f := &fsession{s, settle() - 3}
+			f := &fsession{s, settle() - 3, -1}
 			for i := 0; i < 4; i++ {
 				s.lk.sendFrame(pushFrame(1, 50, []byte{byte(i)}))
 			}
@@ -388,7 +416,7 @@ func runC14(r *Run) {
 
 // openFAuth: session with token getter, authenticated (unexpired session).
 func openFAuth() (*fsession, error) {
-	base := settle()
+	base, baseAll := settle(), settleAll()
 	s := &session{tc: newTestClient(), v: 1, trans: "tcp"}
 	s.tcp = newTCPPeer()
 	errc := make(chan error, 1)
@@ -409,7 +437,7 @@ func openFAuth() (*fsession, error) {
 		return nil, err
 	}
 	s.lk = tcpLink{pc}
-	return &fsession{s, base}, nil
+	return &fsession{s, base, baseAll}, nil
 }
 
 // ---------------- C16 ----------------
@@ -425,7 +453,7 @@ func runC16(r *Run) {
 		ws := trans == "ws"
 		for _, N := range ns {
 			// dial + close, N times
-			base := settle()
+			base, baseAll := settle(), settleAll()
 			for i := 0; i < N; i++ {
 				if f, err := openF(trans); err == nil {
 					f.tc.cli.Close(nil)
@@ -435,7 +463,34 @@ func runC16(r *Run) {
 			if d := settle() - base; d != 0 {
 				r.violate(Violation{What: fmt.Sprintf("%d connection goroutines left after %d dial+close cycles", d, N), Case: trans})
 			}
+			if d := settleAll() - baseAll; d != 0 {
+				r.violate(Violation{What: fmt.Sprintf("%d library goroutines left after %d dial+close cycles", d, N), Case: trans, Extra: libStacks(4000)})
+			}
 			r.st.Evaluations++
+			// N x (dial, peer drop, re-dials refused, Close while the recovery loop is running)
+			if N <= 5 {
+				baseAll = settleAll()
+				for i := 0; i < N; i++ {
+					f, err := openF(trans)
+					if err != nil {
+						continue
+					}
+					if f.tcp != nil {
+						f.tcp.stopListening()
+					} else {
+						f.ws.srv.Listener.Close()
+					}
+					f.lk.drop()
+					f.tc.log.waitCount("reconnect failed", 1, 3*time.Second)
+					f.tc.cli.Close(nil)
+					f.close()
+				}
+				if !waitUntil(3*time.Second, func() bool { return settleAll() <= baseAll }) {
+					r.violate(Violation{What: fmt.Sprintf("%d library goroutines left after %d cycles of Close during a running recovery", settleAll()-baseAll, N),
+						Case: trans + ": dial, drop, refused re-dials, Close in the back-off", Extra: libStacks(4000)})
+				}
+				r.st.Evaluations++
+			}
 			// dial + N x (peer drop + recover)
 			if f, err := openF(trans); err == nil {
 				acts := ""
@@ -472,6 +527,32 @@ func runC16(r *Run) {
 				}
 			}
 		}
+	}
+	// recovery whose first attempt dials but is refused at the session step (connection kept open by the peer), second
+	// attempt succeeds: the refused attempt's connection must be released
+	if f, err := openFAuth(); err == nil {
+		f.lk.drop()
+		l2 := f.acceptNext(3 * time.Second)
+		if l2 != nil {
+			if q := l2.nextRequest(2 * time.Second); q != nil {
+				l2.sendFrame(respFrame(1, 3, q.Rid, 7, errBody(500, "no")))
+			}
+			l3 := f.acceptNext(3 * time.Second)
+			if l3 != nil {
+				if q := l3.nextRequest(2 * time.Second); q != nil {
+					l3.sendFrame(respFrame(1, q.Cmd, q.Rid, 0, authRespBody("s2", 60000)))
+				}
+				waitUntil(2*time.Second, func() bool { return f.tc.reconCount() == 1 })
+				o := f.observe(false)
+				r.lifeCase("tcp.rejected-attempt-then-ok", 0, "CL RB DD.1 AD.0 RB DD.1 AD.1 FN X.0.r X.0.w X.0.d X.1.r X.1.w X.1.d", o, false)
+				if o.open != 1 || o.live != 3 {
+					r.violate(Violation{What: fmt.Sprintf("after a recovery whose first attempt was refused at the session step: %d sockets open at the peer, %d connection goroutines (expected 1 and 3)", o.open, o.live), Case: "tcp"})
+				}
+			}
+		}
+		f.tc.cli.Close(nil)
+		r.nothingLeft(f, "tcp rejected attempt then ok, then Close")
+		f.close()
 	}
 	// stalled peer + close cycles: the writer is blocked in the socket write when the connection is closed
 	{
